@@ -665,6 +665,26 @@ def main():
                 S = [modulo - rng.choice([1, 1, 2, 3, 4, 5]) for _ in range(n * 2)]
                 check_matrix_kernel(ck, n, 2, modulo, M, S)
                 ck.count("matrix-float-boundary")
+    # a generator keeps standing for the matrix it was created from when the caller goes on using its own array
+    for _ in range(6 if not ck.thorough else 100):
+        if ck.enough():
+            break
+        n, modulo = rng.choice([2, 3, 4]), rng.choice([0, 7, 11, 2**31 - 1])
+        base = [rng.randrange(-3, 4) for _ in range(n * n)]
+        buf = np.array(base, dtype=np.int64).reshape(n, n)
+        case = {"kind": "work-buffer", "n": n, "modulo": modulo, "matrix": base}
+        g1 = MatrixGenerator.create(buf, modulo)
+        buf[rng.randrange(n), rng.randrange(n)] += 5  # the caller edits its buffer and builds the next generator
+        MatrixGenerator.create(buf, rng.choice([0, 5, 13]))
+        S = [rng.randrange(modulo or 9) for _ in range(n)]
+        Mr = [v % modulo for v in base] if modulo else base
+        want = [sum(Mr[r * n + j] * S[j] for j in range(n)) for r in range(n)]
+        want = [v % modulo if modulo else S64(v) for v in want]
+        got = g1.apply_batch_torch(torch.tensor(S, dtype=torch.int64).reshape(1, n, 1)).reshape(-1).tolist()
+        ck.case(["work-buffer", n, modulo, base, S], True, sample={"op": "generator from a caller-owned int64 array that is edited afterwards"})
+        ck.count("matrix: caller's work buffer")
+        if got != want:
+            ck.violation("C02/matrix/caller-buffer", "a matrix generator no longer acts as the matrix it was created from after the caller edited its own array", {"case": case, "state": S, "expected": want, "observed": got})
     # generators with different moduli in one definition: each acts with its own modulus
     for _ in range(6 if not ck.thorough else 100):
         if ck.enough():
